@@ -24,7 +24,7 @@ impl World {
         if super::server::FIXTURES[params.cert % super::server::FIXTURES.len()].starts_with("ec") {
             use crate::wire::{ReadMode, WriteMode};
             if cfg.read_mode == ReadMode::Random { cfg.read_mode = ReadMode::Cap(3); }
-            if cfg.write_mode == WriteMode::Random { cfg.write_mode = WriteMode::Cap(5); }
+            if cfg.write_mode == WriteMode::Random || cfg.write_mode == WriteMode::Bursty { cfg.write_mode = WriteMode::Cap(5); }
             if cfg.eager != 0 { cfg.eager = 16; }
             cfg.eintr_read = 0;
             cfg.eintr_write = 0;
